@@ -182,3 +182,24 @@ Theorem pipeline_results_under_client_addresses rws rcpts fails :
 Proof.
   intros Hn. unfold pipe_e2e. apply levels_keys; [exact Hn|]. rewrite map_map. cbn [fst]. apply map_id.
 Qed.
+Lemma map_snd_translate m sts : map snd (translate m sts) = map snd sts.
+Proof. unfold translate. rewrite map_map. reflexivity. Qed.
+Lemma map_snd_translate_levels maps : forall sts, map snd (translate_levels maps sts) = map snd sts.
+Proof.
+  induction maps as [|m maps IH]; intros sts; [reflexivity|]. cbn [translate_levels fold_right].
+  rewrite map_snd_translate. apply IH.
+Qed.
+Lemma combine_fst_snd {A B} (l : list (A * B)) : l = combine (map fst l) (map snd l).
+Proof. induction l as [|[a b] l IH]; [reflexivity|]. cbn. f_equal. exact IH. Qed.
+
+(* full strength: every result is reported under the address the client supplied AND carries the
+   result the next hop gave for the address handed on, in the order handed on *)
+Theorem pipeline_results_full rws rcpts fails :
+  levels_nodup rws rcpts ->
+  pipe_e2e rws rcpts fails =
+  combine (pipe_want rws rcpts) (map (fun e => negb (mem_b str_eqb e fails)) (pipe_handed rws rcpts)).
+Proof.
+  intros Hn. rewrite (combine_fst_snd (pipe_e2e rws rcpts fails)).
+  rewrite (pipeline_results_under_client_addresses rws rcpts fails Hn). f_equal.
+  unfold pipe_e2e. rewrite map_snd_translate_levels, map_map. reflexivity.
+Qed.
